@@ -33,7 +33,7 @@ def _roles_tables(fn, m=None):
     from ..util import bound_names
     m = {} if m is None else m
     for t in ("environments", "learners", "evaluators", "interactions"):
-        for n in bound_names(fn, lambda v, t=t: unparse(v) == f"self.{t}"):
+        for n in bound_names(fn, lambda v, t=t: isinstance(v, ast.Attribute) and v.attr == t and isinstance(v.value, ast.Name)):
             m[n] = t
     return m
 
@@ -168,6 +168,7 @@ def r1_narrowing(ctx):
     # a narrowing is skipped when "nothing was removed": that test must count DISTINCT ids (one id takes part in many kept evaluations)
     m = 0
     for mname, fn0 in sorted(cls.methods.items()):
+        fn0 = rename_copy(fn0, _roles_tables(fn0))
         for st in [x for x in ast.walk(fn0) if isinstance(x, ast.If) and isinstance(x.test, ast.Compare) and len(x.test.ops) == 1 and isinstance(x.test.ops[0], ast.NotEq)]:
             sides = [x_ for x_ in (st.test.left, st.test.comparators[0]) if isinstance(x_, ast.Call) and call_name(x_) == "len" and x_.args]
             if len(sides) != 2 or not any(isinstance(b, ast.Assign) and ".where(" in unparse(b.value) for b in st.body):
